@@ -120,6 +120,88 @@ theorem late_kexinit_rejected (T : Tables) (hT : KexTables T) (s : St) (hi : KIn
   | incompatible => simp [hagree, hd, hlate, St.fail]
   | ok e => simp [hagree, hd, hlate, St.fail]
 
+/-- the stray packets a peer can get accepted before its KEXINIT: IGNORE and DEBUG only -/
+def strays (ts : List Nat) : List Ev := ts.map fun t => Ev.recv t [] {}
+
+/-- **No wrap during the initial exchange.**  From *any* inbound counter value (not just 0) and any number of stray
+IGNORE/DEBUG packets before the peer's KEXINIT: as long as no error is raised the counter has simply been added to —
+it never passes 2^32 − 1, so distinct packets of the initial exchange carry distinct sequence numbers and
+"KEXINIT has number 0" can only mean "nothing came before it".  The roll-over guard is what makes this true, and it
+reads the masked value it then stores (AST of `read_message` / `send_message`, read on every run). -/
+theorem initial_kex_counter_never_wraps (T : Tables) (s : St) (ts : List Nat)
+    (hts : ∀ t ∈ ts, t = MSG_IGNORE ∨ t = MSG_DEBUG)
+    (hact : s.active = true) (he : s.err = none) (hd : s.initialKexDone = false) (hns : s.agreedStrict = false)
+    (hlt : s.seqIn < SEQ_MOD) (hok : (run T s (strays ts)).err = none) :
+    (run T s (strays ts)).seqIn = s.seqIn + ts.length ∧ s.seqIn + ts.length < SEQ_MOD ∧
+      (run T s (strays ts)).expected = s.expected ∧ (run T s (strays ts)).agreedStrict = false ∧
+      (run T s (strays ts)).active = true ∧ (run T s (strays ts)).initialKexDone = false ∧
+      (run T s (strays ts)).localKexInit = s.localKexInit ∧
+      Generated.C12.rolloverGuardReadsAssignedValue = true := by
+  induction ts generalizing s with
+  | nil => simp [strays, run, hlt, hns, hact, hd]; decide
+  | cons t ts ih =>
+    have ht := hts t (by simp)
+    have hrun : run T s (strays (t :: ts)) = run T (step T s (.recv t [] {})) (strays ts) := rfl
+    have hstep : step T s (.recv t [] {}) = (if (s.seqIn + 1) % SEQ_MOD = 0 then s.fail .rollover else bump s t) := by
+      simp only [step, hact, he, Option.isNone_none, and_self, if_true, recv, hd, Bool.false_eq_true,
+        not_false_eq_true, and_true]
+      by_cases hr : (s.seqIn + 1) % SEQ_MOD = 0
+      · simp [hr]
+      · simp only [hr, if_false]
+        rcases ht with h | h <;> subst h <;>
+          simp [body, enforceStrict, bump, hns, MSG_IGNORE, MSG_DISCONNECT, MSG_DEBUG]
+    rw [hrun, hstep] at hok
+    rw [hrun, hstep]
+    by_cases hr : (s.seqIn + 1) % SEQ_MOD = 0
+    · rw [if_pos hr] at hok
+      rw [run_dead T (s.fail .rollover) (strays ts) (by simp [St.fail])] at hok
+      simp [St.fail] at hok
+    · rw [if_neg hr] at hok
+      rw [if_neg hr]
+      have hnext : (s.seqIn + 1) % SEQ_MOD = s.seqIn + 1 := by
+        rcases Nat.lt_or_ge (s.seqIn + 1) SEQ_MOD with h3 | h3
+        · exact Nat.mod_eq_of_lt h3
+        · have : s.seqIn + 1 = SEQ_MOD := Nat.le_antisymm hlt h3
+          rw [this] at hr; simp at hr
+      have hb : (bump s t).seqIn = s.seqIn + 1 := by simp [bump, hnext]
+      have hlt' : (bump s t).seqIn < SEQ_MOD := by
+        rw [hb, ← hnext]; exact Nat.mod_lt _ (by decide)
+      obtain ⟨h1, h2, h3, h4, h5, h6, h7, h8⟩ :=
+        ih (bump s t) (fun u hu => hts u (by simp [hu])) hact he hd hns hlt' hok
+      rw [hb] at h1 h2
+      have e1 : (bump s t).expected = s.expected := rfl
+      have e2 : (bump s t).localKexInit = s.localKexInit := rfl
+      rw [e1] at h3
+      rw [e2] at h7
+      refine ⟨by rw [h1]; simp only [List.length_cons]; omega, by simp only [List.length_cons]; omega,
+        h3, h4, h5, h6, h7, h8⟩
+
+/-- … and a KEXINIT that arrives with a non-zero sequence number and makes strict mode agreed is refused, whatever the
+counter was preset to (the statement of `late_kexinit_rejected` without the assumption that counting started at 0) -/
+theorem kexinit_with_nonzero_seqno_rejected (T : Tables) (hT : KexTables T) (s : St) (hact : s.active = true)
+    (he : s.err = none) (hd : s.initialKexDone = false) (hexp : s.expected = [MSG_KEXINIT])
+    (hlk : s.localKexInit = true) (p : Bytes) (x : Ext) (hparse : x.kex ≠ .malformed)
+    (hagree : (scanMarkers s.server s.advertiseStrict x.kexNames (none, s.agreedStrict)).2 = true)
+    (hlate : s.seqIn ≠ 0) (hroll : (s.seqIn + 1) % SEQ_MOD ≠ 0) :
+    (step T s (.recv MSG_KEXINIT p x)).err = some .strictOrder := by
+  unfold step
+  simp only [hact, he, Option.isNone_none, and_self, if_true]
+  unfold recv
+  simp only [hroll, false_and, if_false]
+  unfold body afterExpected
+  simp only [show ¬ (MSG_KEXINIT = MSG_IGNORE) by decide, show ¬ (MSG_KEXINIT = MSG_DISCONNECT) by decide,
+    show ¬ (MSG_KEXINIT = MSG_DEBUG) by decide, if_false, bump, hexp, ne_eq, List.cons_ne_self, not_false_eq_true,
+    if_true, List.contains_cons, BEq.rfl, Bool.true_or, not_true_eq_false,
+    show ¬ (30 ≤ MSG_KEXINIT ∧ MSG_KEXINIT ≤ 41) by decide]
+  rw [dispatch_kexinit T hT]
+  unfold negotiateKeys ensureLocalKexInit
+  simp only [hlk, not_true_eq_false, if_false, St.andThen, he, Option.isSome_none, Bool.false_eq_true]
+  unfold parseKexInit
+  cases hk : x.kex with
+  | malformed => exact absurd hk hparse
+  | incompatible => simp [hagree, hd, hlate, St.fail]
+  | ok e => simp [hagree, hd, hlate, St.fail]
+
 /-- **Inbound reset.**  Whenever NEWKEYS is accepted in strict mode — first exchange or any later one — the
 inbound sequence number restarts at zero. -/
 theorem newkeys_resets_inbound (T : Tables) (hT : KexTables T) (s : St) (hact : s.active = true)
@@ -257,5 +339,15 @@ example : (run Generated.C12.tables (init false false true true) rekeyNoMarker).
     (run Generated.C12.tables (init false false true true) rekeyNoMarker).seqOut = 0 ∧
     (run Generated.C12.tables (init false false true true) rekeyNoMarker).rx = [20, 31, 21, 20, 31, 21] := by
   decide +kernel
+
+/-- the counter preset to 2^32 − 1 (as after 2^32 − 1 swallowed packets): one more stray packet trips the guard -/
+example : (run Generated.C12.tables { init false false true true with seqIn := 4294967295 } (strays [2])).err
+    = some .rollover := by decide +kernel
+/-- preset to 2^32 − 2: the stray is counted, and reading the KEXINIT behind it (number 2^32 − 1) trips the guard -/
+example : (run Generated.C12.tables { init false false true true with seqIn := 4294967294 }
+    (strays [4] ++ [.recv 20 [] (ext true)])).err = some .rollover := by decide +kernel
+/-- preset to 2^32 − 3: the KEXINIT behind the stray has number 2^32 − 2 ≠ 0 and is refused as not the first packet -/
+example : (run Generated.C12.tables { init false false true true with seqIn := 4294967293 }
+    (strays [4] ++ [.recv 20 [] (ext true)])).err = some .strictOrder := by decide +kernel
 
 end PV.Props.C09
